@@ -95,6 +95,17 @@ def run(ctx: Ctx):
     st, j, op, txt = check_writer(ctx, r)
     tr = ast.unparse(r.node)
     ctx.ob("C18-O1", "R29 EXACTLY-ONCE", r, "rebuild schedules an operation only after its job predecessor, once (scheduled set), until all are placed", f"scheduled.add(({j}, {op}))" in txt and "if op_idx > 0 and (j, op_idx - 1) not in scheduled" in tr and "if (j, op_idx) in scheduled:\n                continue" in tr and "while len(scheduled) < len(all_ops)" in tr, "", node=st)
+    # readiness depends on the job order only: any further condition can leave a round without a ready operation, and the
+    # rebuild then leaves through `if not ready: break` with a partial schedule (smaller makespan, accepted as better)
+    rcfg = cfg_of(r.node)
+    rgv = GuardView(rcfg)
+    rapp = [n for n in own_nodes(r.node) if isinstance(n, ast.Call) and ast.unparse(n.func) == "ready.append"]
+    ctx.floor("readiness sites in _rebuild_schedule", len(rapp), 1)
+    for ra in rapp:
+        at = {a for a in rgv.guard_atoms(rcfg.stmt_node_containing(ra), stable_only=False, after_loops=False) if not a.startswith("IN-LOOP:")}
+        allowed = {atom_of("len(scheduled) < len(all_ops)"), atom_of("(j, op_idx) not in scheduled")}
+        extra = sorted(a for a in at if a not in allowed and not (a.startswith("NAND(") and "(j, op_idx - 1) in scheduled" in a and "op_idx" in a and a.count("|") == 1))
+        ctx.ob("C18-O1", "R29 EXACTLY-ONCE", r, "an operation is ready as soon as it is unscheduled and its job predecessor is scheduled (nothing else)", not extra, f"also requires {extra}: together with the job order this can form a cycle, no operation is ready and the schedule is returned incomplete", node=ra)
     mk = ctx.func("job_shop", "_compute_makespan")
     ctx.ob("C18-O1", "R5 PAIRING", mk, "makespan = latest end time of the schedule", "max((end for _, end in schedule.values())) if schedule else 0" in ast.unparse(mk.node), "", node=mk.node)
     # pairing of schedule/makespan and best pair
@@ -281,6 +292,11 @@ def _t_alns_hoisted_user_values(tree):
     M.replace_stmt(g, lambda s: isinstance(s, ast.If) and any(r in ast.walk(s) for r in rets[:1]), lambda s: M.stmts("cur_user, best_user = (evaluate.to_user(current_obj), evaluate.to_user(best_obj))") + [s])
 
 
+def _v_machine_order_binding(tree):
+    g = M.find_func(tree, "_rebuild_schedule")
+    M.replace_stmt(g, lambda s: isinstance(s, ast.Expr) and M.src_is(s.value, "ready.append((j, op_idx))"), lambda s: M.stmts("pos = machine_order_map.get((j, op_idx), 0)\nif pos > 0 and machine_order[pos - 1][:2] not in scheduled:\n    continue") + [s])
+
+
 def _v_no_copy(tree):
     g = M.find_func(tree, "worst_removal")
     M.replace_stmt(g, lambda s: M.src_is(s, "state = state.copy()"), [])
@@ -353,6 +369,7 @@ VARIANTS = [
     M.Variant("sync_violation scans only the vehicles recorded in sync_assignments (seed C18-D)", VR, _v_sync_scan_recorded, "C18-O4"),
     M.Variant("alns early stop reports the current objective with the best state (seed C18-C)", "solvor/lns.py", _v_alns_reports_current, "C18-O4"),
     M.Variant("twin: alns hoists the user-sense values and publishes the best one", "solvor/lns.py", _t_alns_hoisted_user_values, None),
+    M.Variant("rebuild makes the requested machine order binding (seed C18-E)", JS, _v_machine_order_binding, "C18-O1"),
     M.Variant("twin: reformat job_shop", JS, _t_reformat, None),
     M.Variant("twin: reformat vrp", VR, _t_reformat, None),
 ]
